@@ -41,7 +41,7 @@ func astWire(re *syntax.Regexp) string {
 // fast-path templates and their one-node mutations (the boundary of each applicability whitelist)
 var c19Seeds = []string{`[a-z]+`, `\d+`, `\w+`, `[0-9a-f]+`, `\s+`, `[a-z]+[0-9]+`, `[a-z]+\d*x?`, `\d{1,3}[a-c]{2}`, `[a-z]{1,2}[0-9]+`, `[a-z]{2,3}[0-9]`, `[0-9]{1,3}[a-c]`, `[ab]+[bc]+`, `[a-z]+[a-z]+[0-9]`, `\w+\s\d+`,
 	`^(foo|bar|qux)`, `^(\d+|UUID|hex32)`, `^(?:GET|POST|PUT)`, `^(get|post)`, `^(kb|mb)`, `^(ab|cd)`, `^([a-c]+|x|yz)`,
-	`^/.*\.php$`, `\A/.*\.php$`, `\Aab.+cd$`, `^api/.*\.json$`, `^.*\.txt$`, `^/.*[\w-]+\.php$`, `^prefix.*suffix$`, `^abc`, `^[a-c]x`, `^(?:ab|cd)+x`}
+	`^/.*\.php$`, `\A/.*\.php$`, `\Aab.+cd$`, `^api/.*\.json$`, `^.*\.txt$`, `^/.*[\w-]+\.php$`, `^prefix.*suffix$`, `^/.*[\w\s-]+\.txt$`, `^.*\s+END$`, `^x.*[\s]+y$`, `^a.*[^b]+b$`, `^abc`, `^[a-c]x`, `^(?:ab|cd)+x`}
 
 func c19Mutants(r *RNG, p string) []string {
 	out := []string{p}
@@ -79,16 +79,28 @@ func checkC19(r *Report, known []Finding) {
 	root := NewRNG(r.Seed)
 	var pats []string
 	seen := map[string]bool{}
+	// every seed first, then the mutants mutation by mutation across all seeds: a budget cut never drops a whole template family
+	var cols [][]string
 	for i, s := range c19Seeds {
-		for _, m := range c19Mutants(root.Fork(uint64(i)+1), s) {
-			if !seen[m] {
-				seen[m] = true
-				pats = append(pats, m)
+		cols = append(cols, c19Mutants(root.Fork(uint64(i)+1), s))
+	}
+	for k := 0; ; k++ {
+		any := false
+		for _, col := range cols {
+			if k < len(col) {
+				any = true
+				if m := col[k]; !seen[m] {
+					seen[m] = true
+					pats = append(pats, m)
+				}
 			}
 		}
+		if !any {
+			break
+		}
 	}
-	if r.Tier != "thorough" && len(pats) > 330 {
-		pats = pats[:330]
+	if r.Tier != "thorough" && len(pats) > 700 {
+		pats = pats[:700]
 	}
 	alpha := []byte("ab1 ")
 	L := 4
@@ -138,6 +150,37 @@ func checkC19(r *Report, known []Finding) {
 		}
 		gen(nil, ll)
 		hays = append(hays, []byte("a\nb"), []byte("é1"), []byte("/x.php"), []byte("/a\n.php"), []byte("ABab"), []byte("fooe"), []byte("abe"), []byte("abc1"), []byte("wxyz7"), []byte("1234a"))
+		// matches of the pattern itself, and every way of putting a newline / space / class byte into one: the anchored-literal matcher
+		// splits a match into prefix, wildcard span, class bridge and suffix by scanning from both ends — what each scan may take
+		// depends on exactly these bytes
+		if meta.DetectAnchoredLiteral(re) != nil {
+			srng := NewRNG(r.Seed ^ uint64(len(p))*0x9E37)
+			seenM := map[string]bool{}
+			for k := 0; k < 40 && len(seenM) < 10; k++ {
+				b := 30
+				m := sampleMatch(srng, re, nil, &b)
+				for i, c := range m {
+					if c >= 0x80 {
+						m[i] = 'a' + c%26
+					}
+				}
+				if len(m) > 24 || seenM[string(m)] {
+					continue
+				}
+				seenM[string(m)] = true
+				hays = append(hays, m)
+				for i := 0; i <= len(m); i++ {
+					for _, ins := range []byte{'\n', ' ', '-'} {
+						hays = append(hays, append(append(append([]byte(nil), m[:i]...), ins), m[i:]...))
+						if i < len(m) {
+							rep := append([]byte(nil), m...)
+							rep[i] = ins
+							hays = append(hays, rep)
+						}
+					}
+				}
+			}
+		}
 		// fold partners outside ASCII: k/K fold to U+212A (Kelvin sign), s/S to U+017F (long s); a case-insensitive fast path that
 		// only thinks of the two ASCII cases is wrong exactly there
 		if strings.Contains(p, "(?i") {
@@ -267,6 +310,8 @@ func checkC19(r *Report, known []Finding) {
 					got := guard(5*time.Second, func() string { s, e, ok := comp.SearchAt(h, at); return spanStr(s, e, ok) })
 					cases = append(cases, cs{p: p, searcher: "CompositeSearcher", op: "SearchAt", h: h, at: at, req: fmt.Sprintf("re-composite search %d %s %s", at, hexOf(h), wire), got: got})
 					cases = append(cases, cs{p: p, searcher: "CompositeSearcher", op: "SearchAt", h: h, at: at, req: ref, got: got, prop: true})
+					// the transliteration of the code as it is (ordered-list simulation, Cx.CompSim: proved equal to the backtracking model above)
+					cases = append(cases, cs{p: p, searcher: "CompositeSearcher(simulation model)", op: "SearchAt", h: h, at: at, req: fmt.Sprintf("re-csim search %d %s %s", at, hexOf(h), wire), got: got})
 				}
 				if at == 0 {
 					if info != nil {
